@@ -30,6 +30,13 @@ def run(ctx):
             elif fl is not None and n is not None and len(fl) != n:
                 r["failures"].append({"kind": "predicate", "function": name, "case": c, "impl": canon,
                                       "clause": f"{len(fl)} flags for {n} input elements"})
+        # whole-number series given integer-typed
+        n_int = 0
+        for c in cc.sample(cs, 60 if tier == "quick" else 600, rng):
+            n, fails = cc.integer_series_failures(name, ad, c)
+            n_int += n
+            r["failures"] += fails
+        r["evaluations"] += n_int
         results.append(r)
     n_hist, fails, samples = cc.interleaved_history(reg, tier, rng, 60 if tier == "quick" else 600)
     results[0]["failures"] += fails
@@ -47,7 +54,7 @@ def run(ctx):
              "per-test properties (lengths 0,1,2,... and every missing placement included), each call snapshotted before/"
              "after (purity), 15% repeated later, implementation vs Coq model; plus one interleaved history mixing all "
              "tests, executed twice in different orders; plus ClimatologyConfig OBJECTS reused across calls with other "
-             "series (flags equal to fresh calls, object state unchanged); plus a history in which the "
+             "series (flags equal to fresh calls, object state unchanged); plus whole-number series passed integer-typed (list of ints, int32, int64); plus a history in which the "
              "caller passes the SAME array objects to successive calls, overwritten in place between calls. non-trivial = >=2 distinct flags or raises")
     out["distribution"]["interleaved_history_calls"] = n_hist
     out["distribution"]["buffer_reuse_calls"] = n_buf
